@@ -250,6 +250,9 @@ def diff_items(tier):
             sp = F.with_teams(fl, lay)
             for rule in ("TSLACK", "SPT"):
                 out.append((sp, {"rule": rule, "max_time": 30}, 3 if tier == "quick" else 5, (9, 20)))
+    subm = {"tasks": [{"name": "T0", "work": 2.0}, {"name": "S1", "work": 3.0, "sub": {}}, {"name": "T2", "work": 1.0}], "links": [[0, 1, "FS"], [1, 2, "FS"]],
+            "teams": [{"name": "TM0", "targets": [0, 2], "workers": [{"name": "W0", "skills": {"T0": 1.0, "T2": 1.0}, "cost": 1.0}]}]}  # a sub-project task between two worked tasks
+    out.append((subm, {"rule": "TSLACK", "max_time": 30}, 2, (12,)))
     flows3 = list(F.flows(3, ("FS", "SS", "FF"), (1, 2)))
     if tier == "quick":
         flows3 = flows3[::4]
